@@ -142,6 +142,10 @@ def gen_fast_hierarchy_case(rng, tier, idx):
             f = {"name": name, "kind": {"ref": tgt, "arr": arr}, "key": name}
             if not arr and rng.random() < 0.5:
                 f["opt"] = True
+            if rng.random() < 0.4:
+                # the OWNER names keys of the nested class: _serialization_mapper = {"<field>._mapper": {...}}
+                tnames = all_names(srcs, tgt)
+                f["submap"] = {n_: "o_" + n_ for n_ in rng.sample(tnames, rng.randint(1, len(tnames)))}
             fields.append(f)
         rng.shuffle(fields)
         srcs.append(cls(rng.choice(["Order", "Order", "Invoice"]), fields, fast))
@@ -160,6 +164,16 @@ def gen_fast_hierarchy_case(rng, tier, idx):
             op["camel"] = True
         ops.append(op)
     return {"suite": "world", "types": [], "ops": ops, "n": idx}
+
+
+def all_names(srcs, c):
+    """field names of class c of a list of sources, inherited ones included"""
+    out = []
+    while c is not None:
+        out = [f["name"] for f in srcs[c]["fields"]] + out
+        p = srcs[c].get("parent")
+        c = p["c"] if p else None
+    return out
 
 
 SCOPED_PRIMS = sorted(X.PRIM_SRC)
@@ -379,7 +393,10 @@ def gen_case(rng, tier, idx):
         else:
             c = rng.choice(defined)
             kind = rng.choice(USE_OPS)
-            op = {"op": kind, "c": c, "probe": "empty" if rng.random() < 0.15 else "valid"}
+            r_ = rng.random()
+            # "valid1": the SECOND valid value of every field (for AnyOf fields with overlapping options: one that only
+            # a later option accepts), so that what a Field object saw last differs from what it sees first
+            op = {"op": kind, "c": c, "probe": "empty" if r_ < 0.15 else "valid1" if r_ < 0.4 else "valid"}
             if kind in ("serialize", "deserialize") and rng.random() < 0.4:
                 op["camel"] = True       # use-parameter camel_case_convert
             if fastrefs and kind == "createSerializer" and rng.random() < 0.4:
@@ -483,6 +500,50 @@ def directed_cases():
                         [("construct", 2, {"probe": "required"}), ("construct", 0, {}), ("createSerializer", 1, {})]):
                     out.append({"suite": "world", "types": [], "n": -1, "ops": defs + [
                         dict({"op": k, "c": c_, "probe": "valid"}, **extra) for k, c_, extra in hist]})
+    # region: the OWNER's mapper names keys of the nested FastSerializable class ("<field>._mapper"); the owner's
+    # serializer is generated before the nested class was ever used
+    for owner_fast in (True, False):
+        for tgt in (1, 0):
+            for arr in (False, True):
+                ref = fld("account", {"ref": tgt, "arr": arr})
+                ref["submap"] = {"id": "account_id"}
+                own_ = cls("Order", [fld("ref_no", {"prim": 2}), ref], fast=owner_fast)
+                defs = [{"op": "define", "c": 0, "src": base_}, {"op": "define", "c": 1, "src": der_},
+                        {"op": "define", "c": 2, "src": own_}]
+                for hist in ([("createSerializer", 2, {}), ("construct", tgt, {})],
+                             [("serialize", 2, {}), ("serialize", tgt, {})],
+                             [("toSchema", 2, {}), ("deserialize", tgt, {})]):
+                    out.append({"suite": "world", "types": [], "n": -1, "ops": defs + [
+                        dict({"op": k, "c": c_, "probe": "valid"}, **extra) for k, c_, extra in hist]})
+    # region of the open finding mro-resolved-serialize-skips-generation: a FastSerializable owner of a class whose
+    # own serializer cannot be generated (field 11 = AnyOf of two types), whose base class is used first
+    gold_ = cls("Gold", [fld("bad", {"prim": 11})], fast=True, parent={"kind": "inherit", "c": 0})
+    for arr in (False, True):
+        ref = fld("b", {"ref": 1, "arr": arr})
+        if not arr:
+            ref["opt"] = True
+        own_ = cls("Order", [fld("n", {"prim": 0}), ref], fast=True)
+        for hist in ([("construct", 0, "valid")], [("createSerializer", 0, "valid")],
+                     [("construct", 0, "valid"), ("construct", 2, "required")]):
+            out.append({"suite": "world", "types": [], "n": -1, "ops": [
+                {"op": "define", "c": 0, "src": base_}, {"op": "define", "c": 1, "src": gold_},
+                {"op": "define", "c": 2, "src": own_}] + [{"op": k, "c": c_, "probe": pr} for k, c_, pr in hist]})
+    # region: AnyOf fields whose options overlap and normalise differently, inherited / re-used by a derived
+    # class; the derived class is used with a value only the later option accepts, then the base class is used
+    for tag in (27, 28, 29):
+        b_ = cls("Event", [fld("when", {"prim": tag}), fld("id", {"prim": 0})])
+        for pk in ("inherit", "extend", "partial", "omit", "pick"):
+            par = {"kind": pk, "c": 0}
+            if pk == "omit":
+                par["names"] = ["id"]
+            if pk == "pick":
+                par["names"] = ["when"]
+            d_ = cls("Meeting", [fld("room", {"prim": 2})] if pk == "inherit" else [], parent=par)
+            for hist in ([("construct", 1, "valid1")], [("deserialize", 1, "valid1"), ("serialize", 0, "valid")],
+                         [("construct", 0, "valid1"), ("construct", 1, "valid")]):
+                out.append({"suite": "world", "types": [], "n": -1, "ops": [
+                    {"op": "define", "c": 0, "src": b_}, {"op": "define", "c": 1, "src": d_}] + [
+                    {"op": k, "c": c_, "probe": pr} for k, c_, pr in hist]})
     # region: date/time/ip/host kinds WITH a default in one class and WITHOUT in another (same and sibling
     # kinds share a JSON-schema shape); the defaulted class is schema-mapped first
     for ta, tb in ((18, 18), (18, 20), (20, 18), (19, 21), (21, 19), (19, 19), (23, 23), (24, 24), (20, 20), (21, 21)):
@@ -558,16 +619,19 @@ def slice_ops(case, keep):
 
 
 def oracle_only(case):
-    """histories outside the model's vocabulary (see gen_case): judged on the real code alone"""
+    """histories outside the model's vocabulary: judged on the real code alone.  Nested fast serialization
+    (references to FastSerializable classes, optional references, create_serializer flags, minimal instances,
+    owner-side nested mappers) IS in the model; positional arrays of FastSerializable item classes and classes
+    written to a module file are not"""
+    if case.get("scoped"):
+        return False       # (modelled as before: plain references by name)
     fastc = {op["c"] for op in case["ops"] if op["op"] == "define" and op["src"].get("fast")}
     for op in case["ops"]:
         if op["op"] == "define":
             for f in op["src"]["fields"]:
                 k = f["kind"]
-                if f.get("opt") or ("ref" in k and k["ref"] in fastc) or ("refs" in k and set(k["refs"]) & fastc):
+                if "refs" in k and set(k["refs"]) & fastc:
                     return True
-        elif op.get("flags") or op.get("probe") == "required":
-            return True
     return False
 
 
@@ -652,7 +716,9 @@ def wire_field(f, prims):
     key = f.get("key") or f["name"]
     return {"name": f["name"], "kind": kind, "default": bool(f.get("default")), "key": key,
             "camelKey": camel(key), "camelName": camel(f["name"]),
-            "fastOk": p["fastOk"], "trustedOk": p["trustedOk"], "schemaOk": p["schemaOk"], "inlines": p["inlines"]}
+            "fastOk": p["fastOk"], "trustedOk": p["trustedOk"], "schemaOk": p["schemaOk"], "inlines": p["inlines"],
+            "arr": bool(k.get("arr")), "optional": bool(f.get("opt")),
+            "subKeys": sorted([a, b] for a, b in (f.get("submap") or {}).items())}
 
 
 def flat_fields(srcs, c):
@@ -672,19 +738,30 @@ def flat_fields(srcs, c):
     return base + own
 
 
-def valid_args(srcs, c):
-    """the abstract image of `Env.valid_kwargs` (what the executor passes for probe 'valid')"""
+def valid_args(srcs, c, probe="valid", pre=None):
+    """the abstract image of `Env.valid_kwargs` / `Env.required_kwargs` (what the executor passes for the probes
+    'valid', 'valid1' and 'required'); `pre` receives, innermost first, the instances of Structure classes the
+    executor constructs for these arguments: [class, its arguments]"""
     kw = []
     for f in flat_fields(srcs, c):
         k = f["kind"]
+        if probe == "required" and (f.get("opt") or f.get("default")):
+            continue
         if "prim" in k:
             a = {"prim": k["prim"], "valid": True}
         elif "wrap" in k:
             a = {"inst": k["wrap"]}
         elif "refs" in k:
             a = {"structs": list(k["refs"])}
+            if pre is not None:
+                for r in k["refs"]:
+                    pre.append([r, valid_args(srcs, r, "valid", pre)])
+        elif probe == "required" and k.get("arr"):
+            a = {"noItems": True}
         else:
             a = {"struct": k["ref"]}
+            if pre is not None:
+                pre.append([k["ref"], valid_args(srcs, k["ref"], "valid", pre)])
         kw.append([f["name"], a])
     return kw
 
@@ -713,8 +790,15 @@ def line(case, impl):
             ops.append(op)
         else:
             o = {"op": op["op"], "c": op["c"], "camel": bool(op.get("camel"))}
+            if op.get("flags"):
+                o["flags"] = op["flags"]
             if op["op"] in ("construct", "serialize", "deserialize", "trusted") and op["c"] in srcs:
-                o["kw"] = [] if (op["op"] == "construct" and op.get("probe") == "empty") else valid_args(srcs, op["c"])
+                if op["op"] == "construct" and op.get("probe") == "empty":
+                    o["kw"] = []
+                else:
+                    pre = []
+                    o["kw"] = valid_args(srcs, op["c"], op.get("probe") or "valid", pre)
+                    o["pre"] = pre
             ops.append(o)
     return {"suite": "world", "ops": ops, "closures": impl.get("closures", {})}
 
@@ -751,6 +835,8 @@ def finding_key(case, c, impl, model):
         return "name-keyed:aggregated_mapper_by_class"
     if "required-written" in causes:
         return "mutates-cls._required:structure_to_schema"
+    if "instantiable" in causes:
+        return "mro-resolved-serialize-skips-generation:_verify_is_fast_serializable"
     if causes:
         return "model-predicted:" + "+".join(sorted(set(causes)))
     return "unexplained-interference"
@@ -790,6 +876,22 @@ def judge(case, impl, model):
             if bool(ms.get("accepted")) and sorted(ms.get("keys", [])) != rs["keys"]:
                 msgs.append(f"step {i} serialize c={op['c']} camel_case_convert={bool(op.get('camel'))}: "
                             f"emitted keys {rs['keys']} real, {sorted(ms.get('keys', []))} model")
+            if bool(ms.get("accepted")) and "doc" in rs and ms.get("doc") not in (None, "slow") \
+                    and not doc_match(ms["doc"], rs["doc"]):
+                msgs.append(f"step {i} serialize c={op['c']}: x.serialize() has shape {json.dumps(rs['doc'], sort_keys=True)[:200]} "
+                            f"real, {json.dumps(ms['doc'], sort_keys=True)[:200]} model")
+        elif op["op"] == "createSerializer" and rs.get("done") and ms is not None and ms.get("done"):
+            if bool(ms.get("accepted")) != ("err" not in rs):
+                msgs.append(f"step {i} create_serializer c={op['c']} {op.get('flags') or ''}: real "
+                            f"{'raised ' + rs['err'] if 'err' in rs else 'got through'}, model accepted={ms.get('accepted')}")
+        if op["op"] == "construct" and rs.get("done") and ms is not None and ms.get("done") \
+                and op.get("probe") != "empty" and is_fast_class(case, op["c"]):
+            if bool(ms.get("instantiable")) != ("err" not in rs) and rs.get("err") in (None, "TypeError"):
+                msgs.append(f"step {i} {op['op']} c={op['c']}: real {'raised ' + str(rs.get('err')) if 'err' in rs else 'instantiated'}, "
+                            f"model instantiable={ms.get('instantiable')}")
+        if ms is not None and "sers" in rs and "sers" in ms and sorted(ms["sers"]) != rs["sers"]:
+            msgs.append(f"step {i} {op['op']} c={op.get('c')}: classes with their own generated serializer {rs['sers']} real, "
+                        f"{sorted(ms['sers'])} model")
         elif op["op"] == "toSchema" and rs.get("done") and "required" in rs:
             if sorted(ms.get("requiredAfter") or []) != rs["required"]:
                 msgs.append(f"step {i} toSchema c={op['c']}: _required after = {rs['required']} real, {sorted(ms.get('requiredAfter') or [])} model")
@@ -839,6 +941,22 @@ def judge(case, impl, model):
         key = finding_key(case, c, impl, model)
         fails.append((key, f"class {c} ({case_name(case, c)}) behaves differently after the history than alone: {d}"))
     return ("; ".join(msgs[:4]) if msgs else None), fails
+
+
+def doc_match(m, r):
+    """model document shape against the real one; "?" (a one-field class, which may serialize to its bare value)
+    matches anything"""
+    if m == "?":
+        return True
+    if isinstance(m, dict):
+        return isinstance(r, dict) and sorted(m) == sorted(r) and all(doc_match(m[k], r[k]) for k in m)
+    if isinstance(m, list):
+        return isinstance(r, list) and len(m) == len(r) and all(doc_match(a, b) for a, b in zip(m, r))
+    return m == r
+
+
+def is_fast_class(case, c):
+    return bool(srcs_of(case).get(c, {}).get("fast"))
 
 
 def srcs_of(case):
